@@ -24,7 +24,9 @@ PROP = {'gen': [],
                'every capability set the emitted bytes are interpreted as exactly the command\'s denotation; Face in true colour '
                'maps ANY prior rendition to exactly the face; reduced depths select one palette entry per colour; after every '
                'command the parser is back in its initial state, so streams of commands parse back into the same operations '
-               'whatever complete output preceded; the model has no Panic path for any input. DEC mode numbers, KEYBOARD_LEVEL and '
+               'whatever complete output preceded; the model has no Panic path for any input, also with the C20 colour reduction (table '
+               'indexing, nearest) plugged in (C05_nopanic_with_reduction; f32 evaluation itself is not modelled and is covered by the '
+               'exhaustive c20sweep run, which reports encoder panics). DEC mode numbers, KEYBOARD_LEVEL and '
                'grey-depth SGR codes are regenerated from the source each run and the theorems re-checked; the model is tied to the '
                'code by a differential run (single commands and streams through one encoder object).',
  'level_note': 'Trusted: Coq kernel + vm_compute; translate/enc_tables.py; hand-written model Encoder/Encode.v validated by the '
